@@ -426,7 +426,11 @@ def check_c15(tier):
         n, fc = job
         root = os.path.join(base, "s%d" % n)
         os.makedirs(root, exist_ok=True)
-        text = render_fn(fc["fn"]) + "\n\ndef test_uses(fx_sample):\n    pass\n"
+        if n % 2 == 0:
+            text = render_fn(fc["fn"]) + "\n\ndef test_uses(fx_sample):\n    pass\n"
+        else:
+            # the fixture is the LAST statement and the document has NO final newline: every range must still lie inside it
+            text = "def test_uses(fx_sample):\n    pass\n\n\n" + render_fn(fc["fn"]).rstrip("\n")
         path = os.path.join(root, "test_s.py")
         srv = lsp.Server()
         try:
